@@ -57,6 +57,25 @@ theorem agree_of_fin (cfg : Cfg Gen.Cls) (bits : Nat) (h : agreeFin cfg bits = t
       simpa using hp' c this
     · rw [lookupN_of_not_key cfg s c hk, cellD_of_not_ascii bits s ha, hd]
 
+/-- `Cfg.lookup` on a character is `lookupN` on its code (any table) -/
+theorem lookup_ch (cfg : Cfg Gen.Cls) (s : S) (c : Char) : cfg.lookup s (.ch c) = lookupN cfg s c.toNat := by
+  have hf : (fun e : Nat × Op => e.1 == c.toNat) = (fun e => Nat.beq e.1 c.toNat) := by
+    funext e
+    cases hb : Nat.beq e.1 c.toNat with
+    | true => simpa using Nat.eq_of_beq_eq_true hb
+    | false => simpa using Nat.ne_of_beq_eq_false hb
+  simp only [Cfg.lookup, lookupN, hf]
+  cases List.find? (fun e : Nat × Op => Nat.beq e.fst c.toNat) (cfg.rows s) <;> rfl
+
+/-- with agreement, the table does not distinguish the characters the grammar does not distinguish -/
+theorem lookupN_norm (cfg : Cfg Gen.Cls) (bits : Nat) (h : agreeFin cfg bits = true) (s : S) (n : Nat) :
+    lookupN cfg s n = lookupN cfg s (norm n) := by
+  rw [(agree_of_fin cfg bits h s).1 n, (agree_of_fin cfg bits h s).1 (norm n)]
+  by_cases ha : n ∈ ascii
+  · have : norm n = n := by simp [norm, (isAscii_iff n).mpr ha]
+    rw [this]
+  · rw [norm_of_not_ascii ha, cellD_of_not_ascii bits s ha]
+
 theorem lookup_eq (cfg : Cfg Gen.Cls) (bits : Nat) (h : agreeFin cfg bits = true) (s : S) (sym : Sym) :
     cfg.lookup s sym = lookupD bits s sym := by
   cases sym with
